@@ -128,7 +128,10 @@ class BumbleEnd:
         await ch.disconnect()
 
     async def drain(self, ch):
-        ch.write(bytes(600))  # more than the peer's 2 credits x MPS: stays queued (nobody consumes on the other end)
+        # more than the peer's 2 credits x MPS, nobody consumes on the other end: either a backlog of several SDUs stays
+        # queued, or (every other call) exactly one SDU that is sent in part - the queue is empty, its tail waits for credits
+        self._drains = getattr(self, "_drains", 0) + 1
+        ch.write(bytes(64 if self._drains % 2 else 600))
         await ch.drain()
 
     def abort(self, ch):
